@@ -133,8 +133,91 @@ def run_random(sh, n, cfg=None):
     hyp_run(sh, gen.rnds(), body, n)
 
 
+# ------------------------------------------------------------------ rule includes and based rules, taken as their documented expansions
+def expansion_case(rnd, rules):
+    """adds rules written with `>rule` and `name < base` (also chained: c < b, d < c; an include of a based rule) to a generated grammar.
+    returns (rule dicts for the grammar text, reference rules with the documented expansion written out, start rule name)
+    docs/syntax.rst: `extended < base: exp2` has the same effect as `extended: exp1 exp2`; `>rule` stands for the rule's expression"""
+    base_name, base_exp = rnd.choice(rules)
+    own = lambda: ('seq', tuple(('tok', rnd.choice(['a', 'b', ',', '+'])) for _ in range(rnd.randint(1, 2))))
+
+    def seq(*parts):
+        items = []
+        for p_ in parts:
+            items.extend(p_[1] if p_[0] == 'seq' else [p_])
+        return ('seq', tuple(items))
+    o1, o2, o3 = own(), own(), own()
+    dicts = [dict(name=n, exp=x) for n, x in rules]
+    ref = list(rules)
+    shape = rnd.choice(['based', 'chain', 'chain3', 'include', 'include-of-based', 'based-on-including'])
+    top = 'xb1'
+    if shape in ('based', 'chain', 'chain3', 'include-of-based'):
+        dicts.append(dict(name='xb1', exp=o1, base=base_name))
+        ref.append(('xb1', seq(base_exp, o1)))
+    if shape in ('chain', 'chain3'):
+        dicts.append(dict(name='xb2', exp=o2, base='xb1'))
+        ref.append(('xb2', seq(base_exp, o1, o2)))
+        top = 'xb2'
+    if shape == 'chain3':
+        dicts.append(dict(name='xb3', exp=o3, base='xb2'))
+        ref.append(('xb3', seq(base_exp, o1, o2, o3)))
+        top = 'xb3'
+    if shape == 'include':
+        dicts.append(dict(name='xi', exp=seq(o1, ('inc', base_name), o2)))
+        ref.append(('xi', seq(o1, base_exp, o2)))
+        top = 'xi'
+    if shape == 'include-of-based':
+        dicts.append(dict(name='xi', exp=seq(o2, ('inc', 'xb1'))))
+        ref.append(('xi', seq(o2, base_exp, o1)))
+        top = 'xi'
+    if shape == 'based-on-including':
+        dicts.append(dict(name='xi', exp=seq(('inc', base_name), o1)))
+        ref.append(('xi', seq(base_exp, o1)))
+        dicts.append(dict(name='xb1', exp=o2, base='xi'))
+        ref.append(('xb1', seq(base_exp, o1, o2)))
+        top = 'xb1'
+    return dicts, ref, top, shape
+
+
+def compare_expansion(dicts, ref_rules, start, text, model=None):
+    from vf.gast import grammar_text as gt
+    if model is None:
+        gtext = tu.wrapped_text(gt([dict(d, exp=tup(d['exp'])) for d in dicts]), start)
+        try:
+            model = tu.compile_grammar(gtext)
+        except Exception as e:
+            return dict(bucket=f'compile:{type(e).__name__}', oracle='a printed valid grammar must compile', observed=str(e)[:300], grammar=gtext), {}
+    return compare(ref_rules, start, text, model)
+
+
+def run_expansions(sh, n):
+    gcfg = gen.GenCfg()
+
+    def body(rnd):
+        reset_tatsu_state()
+        rules = gen.gen_rules(rnd, gcfg)
+        dicts, ref_rules, start, shape = expansion_case(rnd, rules)
+        gtext = tu.wrapped_text(grammar_text(dicts), start)
+        try:
+            model = tu.compile_grammar(gtext)
+        except Exception as e:
+            sh.fail(f'compile:{type(e).__name__}', dict(kind='expand', dicts=dicts, rules=ref_rules, start=start, input=''),
+                    dict(bucket=f'compile:{type(e).__name__}', observed=str(e)[:300], grammar=gtext))
+            return
+        for text in gen.gen_inputs(rnd, ref_rules, start, 5):
+            d, info = compare(ref_rules, start, text, model)
+            cls = ['expansion:' + shape, f'ref:{info.get("ref")}'] + [f'flag:{f}' for f in info.get('flags', [])]
+            sh.case((gtext, text), info.get('ref') == 'ok' or info.get('terminals', 0) > 0, cls, sample=dict(grammar=grammar_text(dicts), start=start, input=text, ref=info.get('ref')))
+            for f in info.get('flags', []):
+                sh.flag(f)
+            if d is not None:
+                sh.fail('expansion:' + d['bucket'], dict(kind='expand', dicts=dicts, rules=ref_rules, start=start, input=text), d)
+    hyp_run(sh, gen.rnds(), body, n, label='expansions')
+
+
 def run_shard(sh, kind, **kw):
     if kind == 'random':
+        run_expansions(sh, max(20, kw.get('n', 100) // 5))
         return run_random(sh, **kw)
     from vf import enum01
     return enum01.run_shard(sh, compare=compare, **kw)
@@ -145,6 +228,11 @@ def replay(case):
         from vf import enum01
         return enum01.replay(case, compare)
     rules = [(n, tup(x)) for n, x in case['rules']]
+    if case.get('kind') == 'expand':
+        d, _ = compare_expansion(case['dicts'], rules, case['start'], case['input'])
+        if d is not None:
+            d = dict(d, bucket='expansion:' + d['bucket'])
+        return d
     d, _ = compare(rules, case['start'], case['input'], cfg=case.get('cfg'))
     return d
 
@@ -154,6 +242,8 @@ def shrink_candidates(case):
     text = case['input']
     for i in range(len(text)):
         yield dict(case, input=text[:i] + text[i + 1:])
+    if case.get('kind') == 'expand':
+        return      # (the grammar and its written-out expansion would have to shrink together)
     for r2 in shrink_rules(rules):
         names = [n for n, _ in r2]
         if case['start'] in names:
